@@ -7,6 +7,7 @@
 import PLS.Model.Index
 import PLS.Model.Cycles
 import PLS.Model.Scan
+import PLS.Model.Lsp
 import PLS.Generated
 import PLS.Spec.Pytest
 import Driver.Sexp
@@ -224,7 +225,84 @@ def specDepGraph (st : Index) : String :=
 
 def cycleStr (c : Cycle) : String := s!"{">".intercalate c.path}@{defShort c.fixture}"
 
+def locStr (l : Loc) : String :=
+  if l.line0 == l.endLine0 then s!"{showPath l.file}:{l.line0}:{l.startChar}-{l.endChar}"
+  else s!"{showPath l.file}:{l.line0}:{l.startChar}-{l.endLine0}:{l.endChar}"
+
+def optLoc : Option Loc → String
+  | none => "none"
+  | some l => locStr l
+
+def asciiLowerStr (s : String) : String := String.ofList (s.toList.map Char.toLower)
+
+def strContains (s pat : String) : Bool := Index.containsSub pat.toList s.toList
+
+def diagStr (d : Index.Diag) : String := s!"{d.code}|{d.loc.line0}:{d.loc.startChar}-{d.loc.endChar}|{hexOf d.message}"
+
+/-- handler-level queries (answered by the real server over stdio on the implementation side) -/
+def runH (c : CaseSt) (t : List String) : Option (String × CaseSt) :=
+  let st := c.st
+  let upd (r : String × Index) : Option (String × CaseSt) := some (r.1, { c with st := r.2 })
+  match t with
+  | ["h_definition", p, l, ch] =>
+    let (r, st) := st.hDefinition (pathOf p) l.toNat! ch.toNat!
+    upd (optLoc r, st)
+  | ["h_impl", p, l, ch] =>
+    let (r, st) := st.hImplementation (pathOf p) l.toNat! ch.toNat!
+    upd (optLoc r, st)
+  | ["h_references", p, l, ch] =>
+    let (r, st) := st.hReferences (pathOf p) l.toNat! ch.toNat!
+    upd (match r with | none => "none" | some ls => sorted (ls.map locStr), st)
+  | ["h_symbols", p] =>
+    let syms := st.hDocumentSymbols (pathOf p)
+    some (if syms.isEmpty then "none" else
+      sorted (syms.map (fun s => s!"{s.range.line0}|{s.name}|{s.range.line0}:{s.range.startChar}-{s.range.endLine0}:{s.range.endChar}|{s.selection.line0}:{s.selection.startChar}-{s.selection.endChar}|{optHex s.detail}")), c)
+  | ["h_lens", p] =>
+    let (r, st) := st.hCodeLens (pathOf p)
+    upd (if r.isEmpty then "none" else sorted (r.map (fun x => s!"{x.1}:{x.2.1}:{x.2.2}")), st)
+  | ["h_hover", p, l, ch] =>
+    let (r, st) := st.goto (pathOf p) l.toNat! ch.toNat!
+    upd (match r with
+      | none => "none"
+      | some d => hexOf (Index.fixtureDocumentation d (showPath d.file)), st)
+  | ["h_prepare", p, l, ch] =>
+    let (r, st) := st.hPrepareCallHierarchy (pathOf p) l.toNat! ch.toNat!
+    upd (match r with
+      | none => "none"
+      | some i => s!"{i.name}|{locStr i.range}|{locStr i.selection}|{hexOf i.detail}", st)
+  | ["h_incoming", p, n] =>
+    let (r, st) := st.hIncomingCalls (pathOf p) n
+    upd (match r with
+      | none => "none"
+      | some l => sorted (l.map (fun x => s!"{x.1}|{locStr x.2}")), st)
+  | ["h_outgoing", p, n] =>
+    some (match st.hOutgoingCalls (pathOf p) n with
+      | none => "none"
+      | some l => listed (l.map (fun x => s!"{x.1.name}|{locStr x.1.range}|{locStr x.1.selection}|{hexOf x.1.detail}|{locStr x.2}")), c)
+  | ["h_hints", p, l0, l1] =>
+    let (r, st) := st.hInlayHints (pathOf p) (l0.toNat! + 1) (l1.toNat! + 1)
+    upd (match r with
+      | none => "none"
+      | some none => "PANIC"
+      | some (some l) => listed (l.map (fun x => s!"{x.1}:{x.2.1}:{hexOf x.2.2}")), st)
+  | ["h_wsym", q] =>
+    let query := asciiLowerStr ((unhexStr? q).getD "")
+    let r := st.hWorkspaceSymbols query asciiLowerStr strContains
+    some (if r.isEmpty then "none" else
+      sorted (r.map (fun x => s!"{x.1}|{(x.2.file.getLast?).getD "?"}|{locStr x.2}")), c)
+  | "h_diag" :: p :: rest =>
+    let disabled := match rest with
+      | [d] => if d == "-" then [] else d.splitOn ","
+      | _ => []
+    let (alts, st) := st.cyclesAlternatives
+    let outs := (alts.map (fun cy => sorted ((st.hDiagnostics disabled (pathOf p) cy).map diagStr))).eraseDups
+    upd (if outs.length == 1 then outs.head! else "ANYOF " ++ " || ".intercalate outs, st)
+  | _ => none
+
 def runQ (c : CaseSt) (t : List String) : String × CaseSt :=
+  match runH c t with
+  | some r => r
+  | none =>
   let st := c.st
   let upd (r : String × Index) : String × CaseSt := (r.1, { c with st := r.2 })
   match t with
